@@ -26,6 +26,8 @@ def spec_for(shape, naming="unique"):
     applies); 'positional': names repeat across branches (c0, c1, ... by sibling position), so
     parallel branches look alike.  Every Section carries a unique marker in `reference`."""
     def props(i):
+        if i % 3 == 2:
+            return []           # Sections without Properties: a leaf of this kind is an empty (falsy) Section
         ps = [{"name": "p%d" % i, "values": [i], "attrs": {"unit": "V"}}]
         if i % 2 == 0:
             ps.append({"name": "q%d" % i, "dtype": "string", "values": ["v%d" % i, "w"]})
